@@ -7,6 +7,7 @@ package rules
 // (constants by name, &ruleVar by variable name, everything runtime-valued as "_").
 
 import (
+	"fmt"
 	"go/ast"
 	"go/constant"
 	"go/token"
@@ -23,6 +24,37 @@ type effectCtx struct {
 	depth    int
 	ctxType  *types.Named // rules.Context (calls on it are primitives)
 	selfType *types.Named // the rule type whose helpers are inlined
+	params   map[types.Object]bool   // parameters/receivers of the summarised function and inlined helpers (kept by name)
+	locals   map[types.Object]string // local variables, renamed $v1,$v2,… in order of first appearance (robust to renames)
+}
+
+func (e *effectCtx) addParams(f *types.Func) {
+	if e.params == nil {
+		e.params = map[types.Object]bool{}
+		e.locals = map[types.Object]string{}
+	}
+	sig := f.Type().(*types.Signature)
+	if sig.Recv() != nil {
+		e.params[sig.Recv()] = true
+	}
+	for i := 0; i < sig.Params().Len(); i++ {
+		e.params[sig.Params().At(i)] = true
+	}
+	for i := 0; i < sig.Results().Len(); i++ {
+		e.params[sig.Results().At(i)] = true
+	}
+}
+
+func (e *effectCtx) varName(o *types.Var) string {
+	if e.params == nil || e.params[o] {
+		return "$" + o.Name()
+	}
+	if n, ok := e.locals[o]; ok {
+		return n
+	}
+	n := fmt.Sprintf("$v%d", len(e.locals)+1)
+	e.locals[o] = n
+	return n
 }
 
 // summarize renders the effect of a function body.
@@ -32,6 +64,7 @@ func (e *effectCtx) summarize(f *types.Func) string {
 		return "?nobody"
 	}
 	info := e.p.Pkgs[core.Rel(f.Pkg())].TypesInfo
+	e.addParams(f)
 	toks := e.stmts(info, d.Body.List)
 	if len(toks) == 0 {
 		return "nop"
@@ -70,45 +103,33 @@ func (e *effectCtx) stmt(info *types.Info, s ast.Stmt) []string {
 	case *ast.IncDecStmt:
 		return []string{s.Tok.String() + "(" + e.argStr(info, s.X) + ")"}
 	case *ast.AssignStmt:
-		var out []string
-		for _, r := range s.Rhs {
-			ast.Inspect(r, func(n ast.Node) bool {
-				if call, ok := n.(*ast.CallExpr); ok {
-					toks := e.call(info, call)
-					for _, t := range toks {
-						if !strings.HasPrefix(t, "?pure") {
-							out = append(out, t)
-						}
-					}
-					return false
-				}
-				return true
-			})
+		// complete rendering: every assignment appears with its targets and sources
+		var ls, rs []string
+		kind := "let"
+		if s.Tok == token.DEFINE {
+			kind = "def"
 		}
-		for i, l := range s.Lhs {
-			if ix, isIx := stripParens(l).(*ast.IndexExpr); isIx && fieldOf(info, ix.X) != nil {
-				rhs := "_"
-				if len(s.Rhs) == len(s.Lhs) {
-					rhs = e.argStr(info, s.Rhs[i])
-				}
-				out = append(out, "set("+e.argStr(info, l)+s.Tok.String()+rhs+")")
+		for _, l := range s.Lhs {
+			l = stripParens(l)
+			if id, ok := l.(*ast.Ident); ok && id.Name == "_" {
+				ls = append(ls, "_")
 				continue
 			}
-			if id, isId := stripParens(l).(*ast.Ident); isId && s.Tok != token.DEFINE && id.Name != "_" && len(s.Rhs) == len(s.Lhs) {
-				if _, isVar := info.ObjectOf(id).(*types.Var); isVar {
-					out = append(out, "let($"+id.Name+s.Tok.String()+e.argStr(info, s.Rhs[i])+")")
-					continue
-				}
+			if fieldOf(info, l) != nil {
+				kind = "set"
+			} else if ix, ok := l.(*ast.IndexExpr); ok && fieldOf(info, ix.X) != nil {
+				kind = "set"
 			}
-			if fld := fieldOf(info, l); fld != nil {
-				rhs := "_"
-				if len(s.Rhs) == len(s.Lhs) {
-					rhs = e.argStr(info, s.Rhs[i])
-				}
-				out = append(out, "set("+e.argStr(info, l)+s.Tok.String()+rhs+")")
-			}
+			ls = append(ls, e.argStr(info, l))
 		}
-		return out
+		for _, r := range s.Rhs {
+			rs = append(rs, e.argStr(info, r))
+		}
+		tok := s.Tok.String()
+		if s.Tok == token.DEFINE {
+			tok = "="
+		}
+		return []string{kind + "(" + strings.Join(ls, ",") + tok + strings.Join(rs, ",") + ")"}
 	case *ast.IfStmt:
 		var out []string
 		if s.Init != nil {
@@ -189,7 +210,7 @@ func (e *effectCtx) argStr(info *types.Info, x ast.Expr) string {
 			if o.Pkg() != nil && o.Parent() == o.Pkg().Scope() {
 				return o.Name()
 			}
-			return "$" + o.Name()
+			return e.varName(o)
 		}
 	case *ast.SelectorExpr:
 		if obj, ok := info.ObjectOf(v.Sel).(*types.Const); ok {
@@ -289,6 +310,7 @@ func (e *effectCtx) call(info *types.Info, call *ast.CallExpr) []string {
 		defer func() { e.depth-- }()
 		d := e.p.FuncDecl(cal)
 		if d != nil && d.Body != nil {
+			e.addParams(cal)
 			return e.stmts(e.p.Pkgs[core.Rel(cal.Pkg())].TypesInfo, d.Body.List)
 		}
 	}
